@@ -110,6 +110,10 @@ fn mixes() -> Vec<Mix> {
         Mix { partial: false, name: "FO+FO identical", cfgs: vec![fo.clone(), fo.clone()] },
         // identical sinc table sizes, different cutoff / window
         Mix { partial: false, name: "SI+SI same table size different filter", cfgs: vec![si.clone(), { let mut c = si.clone(); c.ratio = 0.8; c.window = rubato::WindowFunction::Hann; c }] },
+        // same oversampling factor, different interpolation order (per-thread tables keyed by the factor only)
+        Mix { partial: false, name: "SI Cubic + SI Quadratic same oversampling", cfgs: vec![si.clone(), { let mut c = si.clone(); c.interp = Interp::Quadratic; c }] },
+        Mix { partial: false, name: "SO Quadratic + SI Linear + SO Cubic same oversampling", cfgs: vec![{ let mut c = so.clone(); c.interp = Interp::Quadratic; c }, { let mut c = si.clone(); c.interp = Interp::Linear; c }, so.clone()] },
+        Mix { partial: false, name: "FI Cubic + FI Septic", cfgs: vec![fi.clone(), { let mut c = fi.clone(); c.degree = Degree::Septic; c }] },
         // parameters that differ only slightly (a cache keyed on rounded floats would collide)
         Mix { partial: false, name: "SI+SI cutoffs 3e-5 apart", cfgs: vec![si.clone(), { let mut c = si.clone(); c.f_cutoff += 3.0e-5; c }] },
         Mix { partial: false, name: "SI+SO downsampling, ratios 5e-5 apart", cfgs: vec![{ let mut c = si.clone(); c.ratio = 0.91875; c }, { let mut c = so.clone(); c.ratio = 0.9187; c }] },
